@@ -39,16 +39,15 @@ impl Vector {
 
     pub fn clone_vector(&self, start: Option<usize>, end: Option<usize>) -> Vec<VCell> {
         let v = self.vector.borrow();
-        let mut start = start.unwrap_or(0);
-        if start > v.len() {
-            start = v.len();
+        let start = start.unwrap_or(0).min(v.len());
+        // `end` is the index of the last element copied, clamped to the vector
+        let end = match end {
+            Some(end) => end.saturating_add(1).min(v.len()),
+            None => v.len(),
+        };
+        if start >= end {
+            return vec![];
         }
-
-        let mut end = end.unwrap_or(v.len() - 1);
-        if end >= v.len() {
-            end = v.len() - 1;
-        }
-
-        Vec::from(&v[start..=end])
+        Vec::from(&v[start..end])
     }
 }
